@@ -32,7 +32,8 @@ type Obligation struct {
 	OK     bool   `json:"ok"`
 	Detail string `json:"detail,omitempty"`
 	Config string `json:"config,omitempty"`
-	AltKey string `json:"alt_key,omitempty"` // function-agnostic key (bounds obligations): matches known findings when code moved
+	AltKey string `json:"alt_key,omitempty"`     // function-agnostic key (bounds obligations): matches known findings when code moved
+	Recog  bool   `json:"recognition,omitempty"` // a recognition obligation: its failure means "the mechanism could not be found", not "the property is broken"
 }
 
 // Ctx is the state of one property run over one loaded configuration.
@@ -44,6 +45,8 @@ type Ctx struct {
 	Info     []string
 	counts   map[string]int // rule -> instances analysed
 	keys     map[string]bool
+	recog    bool // the obligation being recorded is a recognition obligation
+	definite bool // the obligation being recorded is a definite contradiction when it fails (never demoted)
 }
 
 func (c *Ctx) ob(rule, fn, construct string, pos string, ok bool, what, detail string) {
@@ -61,11 +64,50 @@ func (c *Ctx) ob(rule, fn, construct string, pos string, ok bool, what, detail s
 		c.counts = map[string]int{}
 	}
 	c.counts[rule]++
-	o := Obligation{Rule: rule, Key: k, Pos: pos, What: what, OK: ok, Config: c.P.Cfg}
+	o := Obligation{Rule: rule, Key: k, Pos: pos, What: what, OK: ok, Config: c.P.Cfg, Recog: c.recog}
 	if !ok {
 		o.Detail = detail
+		// a failure inside code that involves entities unknown to the baseline (new helper functions, types, package
+		// variables) cannot be told from "the rule does not recognise the restructured mechanism": it is reported as
+		// UNDECIDED, never as a violation
+		definite := c.definite || (lastBadOrigin != nil && definiteOrigin(c.P, lastBadOrigin))
+		if !o.Recog && !definite {
+			if f := c.P.FnOpt(fn); f != nil && c.P.involvesNovelty(f) {
+				o.Recog = true
+				o.Detail += " [not a verdict: " + c.P.noveltyWhy[f] + " is unknown to the baseline the rules were confirmed against]"
+			}
+		}
 	}
 	c.Obs = append(c.Obs, o)
+	c.definite = false
+	lastBadOrigin = nil
+}
+
+// obD records a property obligation whose failure is a definite contradiction whatever else changed around it (a write
+// to shared state, a call of a function the rule forbids …): it is never demoted to "undecided" on account of new code.
+func (c *Ctx) obD(rule string, in ssa.Instruction, construct string, ok bool, what, detail string) {
+	c.definite = true
+	c.obI(rule, in, construct, ok, what, detail)
+}
+
+// lastBadOrigin is the origin that made the most recent allOrigins query fail (consumed by the next obligation).
+var lastBadOrigin *Origin
+
+// definiteOrigin: the offending origin is a hard fact that does not depend on code unknown to the baseline — the result
+// of a standard-library / dependency function, a constant, or a parameter of a baseline function.
+func definiteOrigin(p *Prog, o *Origin) bool {
+	switch x := o.V.(type) {
+	case *ssa.Parameter:
+		f := x.Parent()
+		return f != nil && !isTransparent(f) && inventory[short(f.String())]
+	case *ssa.Call:
+		if x.Call.IsInvoke() {
+			return false
+		}
+		sc := x.Call.StaticCallee()
+		return sc != nil && !isRepoPath(fnPkgPath(sc))
+	}
+	return false
 }
 
 // obI is ob positioned at an instruction.
@@ -82,6 +124,27 @@ func (c *Ctx) obF(rule string, f *ssa.Function, construct string, ok bool, what,
 	c.ob(rule, short(f.String()), construct, c.P.Pos(f.Pos()), ok, what, detail)
 }
 
+// obRF / obRI / obR record RECOGNITION obligations: "the rule found the mechanism it is about" (a call, a loop, a
+// store, n instances of it). When one fails the rule cannot say anything about the property on this tree: the run is
+// UNDECIDED (exit 2, no VIOLATION line) unless some property obligation fails as well.
+func (c *Ctx) obRF(rule string, f *ssa.Function, construct string, ok bool, what, detail string) {
+	c.recog = true
+	defer func() { c.recog = false }()
+	c.obF(rule, f, construct, ok, what, detail)
+}
+
+func (c *Ctx) obRI(rule string, in ssa.Instruction, construct string, ok bool, what, detail string) {
+	c.recog = true
+	defer func() { c.recog = false }()
+	c.obI(rule, in, construct, ok, what, detail)
+}
+
+func (c *Ctx) obR(rule, fn, construct string, pos string, ok bool, what, detail string) {
+	c.recog = true
+	defer func() { c.recog = false }()
+	c.ob(rule, fn, construct, pos, ok, what, detail)
+}
+
 func (c *Ctx) info(format string, args ...interface{}) {
 	c.Info = append(c.Info, fmt.Sprintf(format, args...))
 }
@@ -89,7 +152,7 @@ func (c *Ctx) info(format string, args ...interface{}) {
 // min asserts that a rule analysed at least n instances (a rule matching nothing must not pass vacuously).
 func (c *Ctx) min(rule string, n int) {
 	if c.counts[rule] < n {
-		c.ob(rule, "-", "instance-count", "-", false,
+		c.obR(rule, "-", "instance-count", "-", false,
 			fmt.Sprintf("rule %s must find at least %d instances of its mechanism", rule, n),
 			fmt.Sprintf("only %d instance(s) found: the mechanism this rule checks is missing or no longer recognisable", c.counts[rule]))
 		c.counts[rule]-- // do not count the synthetic obligation
@@ -172,6 +235,17 @@ func main() {
 		}
 		sort.Strings(sl)
 		for _, ln := range sl {
+			fmt.Println(ln)
+		}
+		fmt.Println("}")
+		// named types and package-level variables of the library: what is not listed here is NOVEL to the baseline
+		fmt.Println("\nvar typeInventory = map[string]bool{")
+		for _, ln := range prog.namedTypeLines() {
+			fmt.Println(ln)
+		}
+		fmt.Println("}")
+		fmt.Println("\nvar globalInventory = map[string]bool{")
+		for _, ln := range prog.globalLines() {
 			fmt.Println(ln)
 		}
 		fmt.Println("}")
@@ -314,7 +388,7 @@ func run(id, tier, repo, verif string, writeEvidence bool) (status int) {
 		}
 		a.cfgs = append(a.cfgs, o.Config)
 	}
-	var violations, knownHit []Obligation
+	var violations, knownHit, undecided []Obligation
 	discharged := 0
 	for _, k := range order {
 		a := byKey[k]
@@ -331,18 +405,22 @@ func run(id, tier, repo, verif string, writeEvidence bool) (status int) {
 			knownHit = append(knownHit, a.o)
 			continue
 		}
+		if a.o.Recog {
+			undecided = append(undecided, a.o)
+			continue
+		}
 		violations = append(violations, a.o)
 	}
 
 	// self-validation (thorough, and only when the tree itself is clean of violations): each stored mutant must be reported
 	var mutantReport []map[string]interface{}
-	if tier == "thorough" && len(violations) == 0 {
+	if tier == "thorough" && len(violations) == 0 && len(undecided) == 0 {
 		mutantReport = selfValidate(p, repo, verif)
 	}
 
 	// report
-	fmt.Printf("rtcheck property=%s tier=%s repo=%s configs=%d functions=%d obligations=%d discharged=%d known=%d violations=%d\n",
-		id, tier, repo, len(cfgs), funcs, len(order), discharged, len(knownHit), len(violations))
+	fmt.Printf("rtcheck property=%s tier=%s repo=%s configs=%d functions=%d obligations=%d discharged=%d known=%d violations=%d undecided=%d\n",
+		id, tier, repo, len(cfgs), funcs, len(order), discharged, len(knownHit), len(violations), len(undecided))
 	ruleCount := map[string][2]int{}
 	for _, k := range order {
 		a := byKey[k]
@@ -374,6 +452,10 @@ func run(id, tier, repo, verif string, writeEvidence bool) (status int) {
 		}
 	}
 
+	for _, o := range undecided {
+		fmt.Printf("  UNRECOGNISED %s at %s\n    rule: %s\n    why : %s\n", o.Key, o.Pos, o.What, o.Detail)
+	}
+
 	evDir := filepath.Join(verif, "evidence")
 	replay := filepath.Join(evDir, id+".violations.json")
 	if writeEvidence {
@@ -390,6 +472,11 @@ func run(id, tier, repo, verif string, writeEvidence bool) (status int) {
 	if len(violations) > 0 {
 		fmt.Printf("VIOLATION property=%s replay=%s\n", id, replay)
 		return 1
+	}
+	if len(undecided) > 0 {
+		// the rules could not find (all of) the mechanism they are about: no verdict on the property for this tree
+		fmt.Printf("UNDECIDED property=%s: %d recognition obligation(s) failed - the code was restructured beyond what the rules recognise; they have to be re-confirmed against it (this is not a verdict)\n", id, len(undecided))
+		return 2
 	}
 	return 0
 }
